@@ -40,6 +40,24 @@ func runC08(c *an.Ctx) {
 	notMutator := map[string]string{"Prepare": "per-transaction initialisation", "Snapshot": "", "RevertToSnapshot": "", "DiscardSnapshot": "", "Commit": "end of transaction", "CommitToCacheDB": "end of transaction"}
 	inScope := func(fn *ssa.Function) bool { return an.FuncPkgPath(fn) == an.RepoMod+"/"+sp }
 	written := map[*types.Var][]an.FieldWrite{}
+	snapUnit := map[*ssa.Function]bool{}
+	for _, root := range []*ssa.Function{snapshotFn, revertFn} {
+		for _, g := range an.InlineReach(root) {
+			snapUnit[g] = true
+		}
+	}
+	if dsf := c.P.Func(sp + ".(*StateDB).DiscardSnapshot"); dsf != nil {
+		for _, g := range an.InlineReach(dsf) {
+			snapUnit[g] = true
+		}
+	}
+	unitWrites := func(root *ssa.Function) []an.FieldWrite {
+		var out []an.FieldWrite
+		for _, g := range an.InlineReach(root) {
+			out = append(out, an.DirectFieldWrites(g)...)
+		}
+		return out
+	}
 	var mutators []*ssa.Function
 	ms := c.P.SSA.MethodSets.MethodSet(types.NewPointer(stateDB.Type()))
 	for i := 0; i < ms.Len(); i++ {
@@ -50,14 +68,23 @@ func runC08(c *an.Ctx) {
 		if _, skip := notMutator[fn.Name()]; skip {
 			continue
 		}
+		// private helpers the snapshot mechanism itself is split into are part of that mechanism
+		if snapUnit[fn] {
+			continue
+		}
 		mutators = append(mutators, fn)
 		an.FieldWritesTransitive(fn, inScope, 3, map[*ssa.Function]bool{}, written)
 	}
 	c.Count("functions_analysed", len(mutators))
 	c.RequireMin("EVM-facing StateDB methods", len(mutators), 25)
-	snapReads := an.FieldReads(snapshotFn)
+	snapReads := map[*types.Var]bool{}
+	for _, g := range an.InlineReach(snapshotFn) {
+		for f := range an.FieldReads(g) {
+			snapReads[f] = true
+		}
+	}
 	revWrites := map[*types.Var]bool{}
-	for _, w := range an.DirectFieldWrites(revertFn) {
+	for _, w := range unitWrites(revertFn) {
 		if w.Kind == "store" {
 			revWrites[w.Field] = true
 		}
@@ -94,7 +121,7 @@ func runC08(c *an.Ctx) {
 	// ---- depth: Snapshot
 	snapStores := map[string]ssa.Value{}
 	var snapAlloc ssa.Value
-	for _, w := range an.DirectFieldWrites(snapshotFn) {
+	for _, w := range unitWrites(snapshotFn) {
 		if w.Kind == "store" && ownerName(w.Field, snapT, c) == "snapshot" {
 			snapStores[w.Field.Name()] = w.Val
 			if fa, ok := w.In.(*ssa.Store).Addr.(*ssa.FieldAddr); ok {
@@ -108,30 +135,38 @@ func runC08(c *an.Ctx) {
 	}
 	if v, ok := snapStores["changes"]; ok {
 		bad := ""
-		for _, s := range an.AllSources(v) {
+		var srcs []ssa.Value
+		for _, s0 := range an.AllSources(v) {
+			srcs = append(srcs, an.Deref(snapshotFn, s0)...)
+		}
+		for _, s := range srcs {
 			call, isC := s.(*ssa.Call)
 			if !isC || call.Call.StaticCallee() != deepClone {
 				bad = "a value that is not a DeepClone result flows into snapshot.changes: " + s.String() + " at " + c.P.Rel(s.Pos())
 				continue
 			}
-			if f := fieldOfLoad(call.Call.Args[0]); f != memdbField {
+			if f := fieldOfLoad(an.Deref(snapshotFn, call.Call.Args[0])[0]); f != memdbField {
 				bad = "DeepClone is not applied to the live cacheDB.memdb"
 			}
 		}
 		c.Check(bad == "", "depth|Snapshot|changes-is-fresh-deep-clone", "on every path the saved memdb is a fresh DeepClone of the live memdb (no sharing with the live memdb or another snapshot)", c.P.Rel(snapshotFn.Pos()), bad)
 	}
 	if v, ok := snapStores["suicided"]; ok {
-		mk, isMk := v.(*ssa.MakeMap)
+		dv := an.Deref(snapshotFn, v)
+		mk, isMk := dv[0].(*ssa.MakeMap)
+		isMk = isMk && len(dv) == 1
 		filled := false
 		if isMk {
 			for _, ref := range *mk.Referrers() {
 				if mu, isMu := ref.(*ssa.MapUpdate); isMu {
-					// key/value come from ranging over self.Suicided
-					for _, b := range snapshotFn.Blocks {
+					// key/value come from ranging over self.Suicided (possibly handed to a copying helper)
+					for _, b := range mk.Parent().Blocks {
 						for _, in := range b.Instrs {
 							if rg, isR := in.(*ssa.Range); isR {
-								if f := fieldOfLoad(rg.X); f != nil && f.Name() == "Suicided" {
-									filled = true
+								for _, rx := range an.Deref(snapshotFn, rg.X) {
+									if f := fieldOfLoad(rx); f != nil && f.Name() == "Suicided" {
+										filled = true
+									}
 								}
 							}
 						}
@@ -159,7 +194,7 @@ func runC08(c *an.Ctx) {
 	}
 	// appended to self.snapshots
 	appended := false
-	for _, w := range an.DirectFieldWrites(snapshotFn) {
+	for _, w := range unitWrites(snapshotFn) {
 		if w.Kind == "store" && w.Field.Name() == "snapshots" {
 			if call, isC := w.Val.(*ssa.Call); isC {
 				if bi, isB := call.Call.Value.(*ssa.Builtin); isB && bi.Name() == "append" && snapAlloc != nil {
@@ -170,7 +205,7 @@ func runC08(c *an.Ctx) {
 	}
 	c.Check(appended, "depth|Snapshot|pushes-record", "Snapshot pushes the new record on the snapshot stack", c.P.Rel(snapshotFn.Pos()), "self.snapshots is not extended by append")
 	// ---- depth: Revert
-	for _, w := range an.DirectFieldWrites(revertFn) {
+	for _, w := range unitWrites(revertFn) {
 		if w.Kind != "store" {
 			continue
 		}
@@ -215,6 +250,15 @@ func runC08(c *an.Ctx) {
 			if fn == revertFn || fn.Name() == "NewStateDB" {
 				continue
 			}
+			inRevert := false
+			for _, g := range an.InlineReach(revertFn) {
+				if g == fn {
+					inRevert = true
+				}
+			}
+			if inRevert {
+				continue
+			}
 			for _, w := range an.DirectFieldWrites(fn) {
 				if w.Field.Name() != "logs" || ownerName(w.Field, stateDB, c) != "StateDB" {
 					continue
@@ -238,7 +282,7 @@ func runC08(c *an.Ctx) {
 	// ---- DeepClone
 	{
 		stores := map[string]ssa.Value{}
-		for _, w := range an.DirectFieldWrites(deepClone) {
+		for _, w := range unitWrites(deepClone) {
 			if w.Kind == "store" && ownerName(w.Field, memDB, c) == "MemDB" {
 				stores[w.Field.Name()] = w.Val
 			}
@@ -253,22 +297,25 @@ func runC08(c *an.Ctx) {
 			}
 			switch f.Type().Underlying().(type) {
 			case *types.Slice:
-				fresh := false
-				if call, isC := v.(*ssa.Call); isC {
-					if bi, isB := call.Call.Value.(*ssa.Builtin); isB && bi.Name() == "append" {
-						if sl, isS := call.Call.Args[0].(*ssa.Slice); isS {
-							if _, isA := sl.X.(*ssa.Alloc); isA {
-								fresh = true
+				fresh := true
+				for _, dv := range an.Deref(deepClone, v) {
+					one := false
+					if call, isC := dv.(*ssa.Call); isC {
+						if bi, isB := call.Call.Value.(*ssa.Builtin); isB && bi.Name() == "append" {
+							if sl, isS := call.Call.Args[0].(*ssa.Slice); isS {
+								if _, isA := sl.X.(*ssa.Alloc); isA {
+									one = true
+								}
+							}
+							if _, isMk := call.Call.Args[0].(*ssa.MakeSlice); isMk {
+								one = true
 							}
 						}
-						if _, isMk := call.Call.Args[0].(*ssa.MakeSlice); isMk {
-							fresh = true
-						}
 					}
-				}
-				if mk, isMk := v.(*ssa.MakeSlice); isMk {
-					_ = mk
-					fresh = copiesInto(deepClone, v)
+					if mk, isMk := dv.(*ssa.MakeSlice); isMk {
+						one = copiesInto(mk.Parent(), dv)
+					}
+					fresh = fresh && one
 				}
 				c.Check(fresh, key, "every slice field of the clone has a fresh backing array (append onto a new empty slice, or make+copy)", c.P.Rel(deepClone.Pos()), "clone."+f.Name()+" shares its backing array with the original")
 			case *types.Pointer, *types.Interface, *types.Map:
